@@ -33,12 +33,14 @@ def scenarios():
                     pub = {"op": "pub", "c": 9, "t": ["a", "b"], "p": "new", "q": q, "r": retained, "id": 41 if q else 0}
                     pub2 = {"op": "pub", "c": 9, "t": ["a", "b"], "p": "newer", "q": q, "r": retained, "id": 42 if q else 0}
                     # a subscription in the making, a publish inside it
+                    # (after a retained publish nothing else is published: a later payload would hide that an earlier one was missed)
+                    tail = [{"op": "quiesce"}] if retained else [pub2, {"op": "quiesce"}]
                     for hold in ("subs.create", "topics.get"):
-                        out.append(setup(before) + [{"op": "race", "hold": hold, "a": sub, "b": [pub]}, pub2, {"op": "quiesce"}])
+                        out.append(setup(before) + [{"op": "race", "hold": hold, "a": sub, "b": [pub]}] + tail)
                     # a publish in the making, a subscription completed inside it
                     holds = ["subs.bypattern"] + (["topics.set"] if retained else [])
                     for hold in holds:
-                        out.append(setup(before) + [{"op": "race", "hold": hold, "a": pub, "b": [sub]}, pub2, {"op": "quiesce"}])
+                        out.append(setup(before) + [{"op": "race", "hold": hold, "a": pub, "b": [sub]}] + tail)
                     # the same with an established subscription being taken back
                     out.append(setup(before) + [sub, {"op": "race", "hold": "subs.delete", "a": unsub, "b": [pub]}, pub2, {"op": "quiesce"}])
                     out.append(setup(before) + [sub, {"op": "race", "hold": "subs.bypattern", "a": pub, "b": [unsub]}, pub2, {"op": "quiesce"}])
